@@ -14,6 +14,17 @@ a counted race, never a violation: the review decision last fetched (for that he
 contain neither 'WIP' nor 'stacked PR'; every required check (and CI's own context) of that head, as last fetched and
 overlaid with CI's own accepted posts, succeeded; a successful complete test batch with source_sha = sha and target_sha =
 the target sha last fetched exists; no other merge was accepted since the target ref was last fetched.
+Target currency is additionally judged against what GitHub REALLY has at the merge endpoint, minus what CI could not know:
+the target commit CI has been *told* is the later of its last successful ref fetch and GitHub's answer to its own last
+accepted merge (which replaced the target commit).  The batch that justifies a merge must not have run against a target
+commit CI had already merged a pull request onto, and over a whole history no two accepted merges may rest on the same
+observed target commit ("at most one merge per target-branch update"); external moves after the last fetch stay races.
+
+Second phase ("merge trains under fault plans"): 2-4 pull requests opened, approved and tested together against one
+target commit, deterministic fault plans at the fake GitHub (fail the next n requests of one kind -- ref / pulls / graphql /
+merge / post-status -- after the j-th merge / target move / push, or the k-th request outright), and updates that do NOT
+refresh GitHub between the faults and the next periodic update: batch callbacks (late, duplicated, of unrelated batches of
+the same target branch) and "retry" presses (what ci.ci.retry_pr does), with the merge's own webhook lossy / delayed.
 """
 import asyncio
 from collections import Counter
@@ -27,7 +38,12 @@ RULE = (
     'rollup is paginated), batch completions/failures with lost callbacks, external target-branch moves, lost/delayed webhooks, GitHub and '
     'batch API errors (0-10 % of calls), deployable or not; interleaved by virtual latencies with CI\'s periodic and notified updates. '
     'Distinct by (configuration, order of merged PRs, refusal reasons seen, failure kinds seen); non-trivial when CI called is_mergeable '
-    'with both outcomes or a merge was attempted.'
+    'with both outcomes or a merge was attempted. '
+    'Phase "train": 1-3 virtual hours, bursts of 2-4 PRs opened/approved/tested together against one target commit (batch durations '
+    'base + 0..250 s so that they complete within one refresh period), 1-3 fault plans per history (fail the next 1-4 requests of kind ref / '
+    'pulls / graphql / merge / post-status after the 1st-2nd accepted merge, the 1st target move, the 1st push, or from the k-th request), '
+    'non-refreshing updates every 0 / 15 / 45 / 120 s (stray batch callbacks) and retry presses, merge webhooks lost with p 0 / 0.4 / 1; the same '
+    'random events at a lower rate.  Distinct additionally by (fault kinds delivered, whether the refresh after an own merge failed).'
 )
 ASSUMPTIONS = [
     'vf/sim/fake_github.py: PUT merge is refused (409) unless sha is the current head, (405) when closed or conflicting; branch protection is '
@@ -54,7 +70,19 @@ def FLOORS(tier):
         'stale_head_status_posts': 50 if q else 500,
         'target_moves': 50 if q else 500,
         'pushes': 100 if q else 1000,
+        # the fault-plan / merge-train class (phase "train")
+        # (about half of the minimum observed over quick seeds 0..4; thorough runs ~23x as many train histories)
+        'train_histories': 240 if q else 2400,
+        'train_accepted_merges': 700 if q else 7000,
+        'planned_faults[ref]': 300 if q else 3000,
+        'ref_fetch_failed_right_after_own_merge': 150 if q else 1500,                 # the refresh that follows an own merge failed
+        'non_refreshing_updates_before_target_reconfirmed': 500 if q else 5000,       # batch callback / retry press in that state
+        'second_merge_opportunities_on_consumed_target': 140 if q else 1400,          # ... while another PR is green against the old target
+        'train_histories_with_second_merge_opportunity': FLOOR_OPP if q else FLOOR_OPP * 10,
     }
+
+
+FLOOR_OPP = 1
 
 
 AUTHORS = ['ehigham', 'chrisvittal', 'cjllanwarne']
@@ -77,6 +105,40 @@ def gen_config(rng):
     c['horizon'] = rng.choice([4, 6, 8]) * 3600
     c['gap'] = rng.choice([45, 90, 150])
     c['stranger'] = rng.random() < 0.15
+    return c
+
+
+FAULT_KINDS = ['ref', 'ref', 'ref', 'pulls', 'graphql', 'merge', 'post-status']
+FAULT_ANCHORS = [('MERGED', 1), ('MERGED', 1), ('MERGED', 1), ('MERGED', 2), ('target', 1), ('push', 1), None]
+
+
+def gen_train_config(rng):
+    """merge train under a fault plan: several PRs tested together against one target commit; faults anchored to events"""
+    c = {'mode': 'train'}
+    c['n_train'] = rng.choice([2, 2, 3, 3, 4])
+    c['max_open'] = c['n_train']
+    c['external_required'] = rng.choice([[], [], ['lint']])
+    c['ci_required'] = rng.random() < 0.9
+    c['review_required'] = True
+    c['dismiss_stale'] = rng.random() < 0.2
+    c['error_rate'] = rng.choice([0.0, 0.0, 0.0, 0.01])
+    c['batch_error_rate'] = rng.choice([0.0, 0.0, 0.0, 0.03])
+    c['deployable'] = rng.random() < 0.4
+    c['webhook_loss'] = rng.choice([0.0, 0.4, 0.4, 1.0])      # 1.0: webhook endpoint unreachable, only the periodic update refreshes
+    c['callback_loss'] = rng.choice([0.0, 0.15])
+    c['horizon'] = rng.choice([1, 2, 3]) * 3600
+    c['gap'] = rng.choice([200, 400, 800])
+    c['stranger'] = False
+    c['batch_base'] = rng.choice([60, 200, 900])
+    c['approve_at'] = rng.choice([10, 100, 400, 1200])
+    c['stray_callback_period'] = rng.choice([0, 15, 45, 120])
+    c['retry_presses'] = rng.random() < 0.4
+    plans = []
+    for _ in range(rng.choice([1, 1, 2, 3])):
+        after = rng.choice(FAULT_ANCHORS)
+        plans.append({'kind': rng.choice(FAULT_KINDS), 'after': list(after) if after else None,
+                      'nth': rng.choice([1, 1, 1, 2]) if after else rng.randint(1, 40), 'count': rng.choice([1, 1, 2, 4])})
+    c['fault_plans'] = plans
     return c
 
 
@@ -126,9 +188,39 @@ def judge(rec, world):
         else:
             key = 'batch/none'
         out.append((key, f'PR {n}: merged {sha}; target last fetched {T}; batches of this PR: {rec["batches"]}', {}))
+    # -- tested against the target's REAL current commit, as far as CI has been told: a target commit CI itself merged a pull
+    #    request onto is not current any more, and GitHub said so in its answer to that merge (external moves: races())
+    consumed = rec.get('consumed_targets') or {}
+    real = rec['truth']['target']
+    good = [b for b in mine if b['state'] == 'success']
+    told = rec.get('told_target')
+    current = {real, told[1]} if told else {real}
+    if good and not any(b['target_sha'] in current for b in good):
+        used = sorted({b['target_sha'] for b in good if b['target_sha'] in consumed})
+        if used:
+            out.append(('batch/tested-against-a-target-commit-ci-had-already-merged-onto',
+                        f'PR {n}: merged {sha} on a test batch against {used}, onto which CI had already merged PR {[consumed[u] for u in used]}; the target branch '
+                        f'is really at {real}; the newest target commit CI had been told of is {told and told[1]} ({told and told[2]})', {}))
     # -- one merge per target update
     if rec['merges_since_ref_fetch'] >= 1:
         out.append(('merge/second-merge-without-refetching-target', f'PR {n}: {rec["merges_since_ref_fetch"]} merge(s) already accepted since the target ref was fetched', {}))
+    return out
+
+
+def judge_history(world):
+    """at most one accepted merge per target-branch commit as observed by CI (the target sha it last fetched, which is the one its
+    up-to-date test rests on) -> list of (key, text, detail)"""
+    out = []
+    by_target = {}
+    for rec in world.merges:
+        ref = rec['fetched_ref']
+        if ref is not None:
+            by_target.setdefault(ref[1], []).append(rec)
+    for t_sha, recs in by_target.items():
+        if len(recs) > 1:
+            out.append(('merge/more-than-one-merge-on-one-observed-target-commit',
+                        f'PRs {[r["number"] for r in recs]} were all merged on CI\'s observation of target commit {t_sha} (merge times {[r["t"] for r in recs]}); '
+                        f'the target branch really was at {[r["truth"]["target"] for r in recs]}', {'merges': [{k: v for k, v in r.items() if k != 'truth'} for r in recs]}))
     return out
 
 
@@ -170,7 +262,30 @@ def one_history(ctx, g, rng, cfg):
         holder['world'], holder['svc'] = world, svc
         restore = F.install(g, world, svc)
         orig_is_mergeable = g.PR.is_mergeable
+        orig_try_to_merge = g.WatchedBranch.try_to_merge
         orig_put = F.FakeGitHubClient.put
+        train = cfg.get('mode') == 'train'
+        for p in cfg.get('fault_plans', ()):
+            world.plan_fault(p['kind'], after=p['after'], nth=p['nth'], count=p['count'])
+
+        def unconfirmed():
+            """the newest thing CI knows about the target branch is that its own merge replaced the commit it had fetched"""
+            return world.told_target is not None and world.told_target[2] == 'own-merge'
+
+        async def try_to_merge(self, gh_):
+            # observation only: how often CI decides about merging between an own merge and the next successful ref fetch, and
+            # how often a pull request that was green against the consumed target commit is open at that moment
+            if unconfirmed():
+                stats['try_to_merge_before_target_reconfirmed'] += 1
+                for pr in world.prs.values():
+                    if pr.open and pr.review == 'APPROVED' and not (pr.labels & F.DO_NOT_MERGE_LABELS) and any(
+                            b.state == 'success' and b.attributes.get('test') == '1' and b.attributes.get('source_sha') == pr.head
+                            and b.attributes.get('target_sha') in world.consumed_targets for b in svc.batches):
+                        stats['second_merge_opportunities_on_consumed_target'] += 1
+                        break
+            return await orig_try_to_merge(self, gh_)
+
+        g.WatchedBranch.try_to_merge = try_to_merge
 
         def is_mergeable(self):
             try:
@@ -222,6 +337,9 @@ def one_history(ctx, g, rng, cfg):
                     await asyncio.sleep(300)
 
             def webhook():
+                if cfg['webhook_loss'] >= 1.0:
+                    stats['webhooks_lost'] += 1
+                    return
                 if rng.random() < cfg['webhook_loss']:
                     stats['webhooks_lost'] += 1
                     return
@@ -233,8 +351,16 @@ def one_history(ctx, g, rng, cfg):
 
                 spawn(deliver())
 
+            async def batch_notification(kind):
+                if unconfirmed():
+                    stats['non_refreshing_updates_before_target_reconfirmed'] += 1
+                await guarded(lambda: wb.notify_batch_changed(db, svc, gh, False), kind)
+
             def on_submit(b):
-                dur = rng.choice([20, 60, 200, 900, 2500])
+                if train:
+                    dur = (cfg['batch_base'] + rng.choice([0, 5, 30, 100, 250])) if 'deploy' not in b.attributes else rng.choice([20, 60, 200])
+                else:
+                    dur = rng.choice([20, 60, 200, 900, 2500])
                 if 'deploy' in b.attributes:
                     outcome = 'success' if rng.random() < 0.9 else 'failure'
                 else:
@@ -248,13 +374,15 @@ def one_history(ctx, g, rng, cfg):
                         stats[f'batch_{outcome}'] += 1
                     if rng.random() >= cfg['callback_loss']:
                         await asyncio.sleep(rng.choice([0.2, 3]))
-                        await guarded(lambda: wb.notify_batch_changed(db, svc, gh, False), 'callback')
+                        await batch_notification('callback')
                     else:
                         stats['callbacks_lost'] += 1
 
                 spawn(complete())
 
             svc.on_submit = on_submit
+            if train:
+                holder['on_merge'] = webhook      # GitHub reports the merge (push to the target branch) through the same lossy channel
 
             def provider(pr, sha):
                 """external status providers react to a new head"""
@@ -299,14 +427,73 @@ def one_history(ctx, g, rng, cfg):
                 webhook()
                 stats['opens'] += 1
 
+            def open_train():
+                """several pull requests opened within seconds of each other, all approved around the same time (one reviewer going
+                through the queue), their external checks quick: CI tests them concurrently against the same target commit"""
+                nonlocal n_opened
+                t_approve = cfg['approve_at']
+                for k in range(cfg['n_train']):
+                    pr = world.open_pr(rng.choice(AUTHORS))
+                    n_opened += 1
+                    if rng.random() < 0.15:
+                        pr.labels.add(rng.choice(['prio:high', 'bug', 'WIP']))
+                    for ctx_name in cfg['external_required']:
+                        world.set_status(pr.head, ctx_name, 'PENDING')
+
+                        async def post(sha=pr.head, ctx_name=ctx_name, d=rng.choice([5, 30, 120])):
+                            await asyncio.sleep(d)
+                            world.set_status(sha, ctx_name, 'SUCCESS' if rng.random() < 0.95 else 'FAILURE')
+
+                        spawn(post())
+
+                    async def approve(pr=pr, d=t_approve + rng.choice([0, 2, 20, 90])):
+                        await asyncio.sleep(d)
+                        if pr.open:
+                            pr.review = 'APPROVED'
+                            world.ev('review', pr.number, pr.review)
+                            webhook()
+
+                    spawn(approve())
+                    stats['opens'] += 1
+                webhook()
+                stats['trains_opened'] += 1
+
+            async def stray_callbacks(period):
+                # callbacks that do not belong to a state change CI is waiting for: redelivered ones, and those of other batches whose
+                # attributes name this target branch (ci.ci.batch_callback_handler notifies the watched branch for any of them)
+                while True:
+                    await asyncio.sleep(period * rng.choice([0.5, 1, 1, 1.5]))
+                    stats['stray_callbacks'] += 1
+                    await batch_notification('callback')
+
+            async def retry_press(number):
+                # ci.ci.retry_pr: invalidate the PR's current batch, forget it, notify_batch_changed (no GitHub refresh)
+                pr_ci = wb.prs.get(number)
+                if pr_ci is None or pr_ci.batch is None or not isinstance(pr_ci.batch, F.FakeBatch) or pr_ci.batch.id is None:
+                    return
+                db.invalidated.add(pr_ci.batch.id)
+                pr_ci.batch = None
+                pr_ci.set_build_state(None)
+                stats['retry_presses'] += 1
+                await batch_notification('callback')
+
             async def events():
-                open_pr()
+                if train:
+                    open_train()
+                    if cfg['stray_callback_period']:
+                        spawn(stray_callbacks(cfg['stray_callback_period']))
+                else:
+                    open_pr()
                 t_end = loop.time() + cfg['horizon']
                 while loop.time() < t_end:
                     await asyncio.sleep(rng.expovariate(1.0 / cfg['gap']))
                     open_prs = [p for p in world.prs.values() if p.open]
                     r = rng.random()
-                    if (not open_prs or (len(open_prs) < cfg['max_open'] and r < 0.12)) and n_opened < 7:
+                    if train:
+                        if not open_prs and n_opened + cfg['n_train'] <= 9:
+                            open_train()
+                            continue
+                    elif (not open_prs or (len(open_prs) < cfg['max_open'] and r < 0.12)) and n_opened < 7:
                         open_pr()
                         continue
                     if not open_prs:
@@ -357,6 +544,8 @@ def one_history(ctx, g, rng, cfg):
                                 world.ev('batch-cancelled-by-user', b.id)
                                 stats['user_cancelled_batches'] += 1
                                 break
+                    elif train and cfg['retry_presses'] and r < 0.95:
+                        spawn(retry_press(pr.number))
                 # quiet tail: let CI settle
                 await asyncio.sleep(1500)
 
@@ -367,6 +556,7 @@ def one_history(ctx, g, rng, cfg):
                 t.cancel()
             await asyncio.gather(*tasks, return_exceptions=True)
             g.PR.is_mergeable = orig_is_mergeable
+            g.WatchedBranch.try_to_merge = orig_try_to_merge
             restore()
 
     # the fake records, for each merge, the batches and failed GraphQL calls; wrap PUT bookkeeping here
@@ -384,6 +574,8 @@ def one_history(ctx, g, rng, cfg):
                               for b in w.svc.batches if b.attributes.get('test') == '1' and b.attributes.get('pr') == str(rec['number'])]
             t_gql = rec['fetched_gql']['t'] if rec['fetched_gql'] else -1
             rec['failed_graphql_since_list'] = sum(1 for e in w.log if e[1] == 'api-error' and e[2] == 'graphql' and e[0] >= t_gql)
+            if holder.get('on_merge'):
+                holder['on_merge']()
         return r
 
     FakeGitHubClient.put = put
@@ -416,8 +608,14 @@ def run(ctx):
     if g.DO_NOT_MERGE != {'WIP', 'stacked PR'}:
         ctx.seen('do_not_merge_constant_in_code', sorted(g.DO_NOT_MERGE))
 
-    for i, rng in ctx.cases(ctx.pick(70, 450)):
-        cfg = gen_config(rng)
+    def histories():
+        for i, rng in ctx.cases(ctx.pick(70, 450)):
+            yield i, rng, gen_config(rng)
+        for i, rng in ctx.cases(ctx.pick(120, 700), phase='train'):
+            yield i, rng, gen_train_config(rng)
+
+    for i, rng, cfg in histories():
+        train = cfg.get('mode') == 'train'
         world, holder, stats, declined, outcome = one_history(ctx, g, rng, cfg)
         if outcome != 'ok' or world is None:
             ctx.count(f'history_{outcome}')
@@ -436,6 +634,21 @@ def run(ctx):
             for r in races(rec):
                 ctx.count(f'race[{r}]')
                 race_kinds.add(r)
+        for key, text, detail in judge_history(world):
+            d = dict(detail)
+            d.update({'config': cfg, 'log_tail': [e for e in world.log if e[0] <= detail['merges'][-1]['t']][-60:]})
+            ctx.violation(key, text, d)
+        if train:
+            ctx.count('train_histories')
+            ctx.count('train_accepted_merges', len(world.merges))
+            ctx.count('train_histories_with_2+_merges', int(len(world.merges) >= 2))
+            ctx.count('train_histories_with_second_merge_opportunity', int(bool(stats.get('second_merge_opportunities_on_consumed_target'))))
+        for k, v in world.planned_faults.items():
+            ctx.count(f'planned_faults[{k}]', v)
+        for p in world.fault_plans:
+            if p['delivered']:
+                ctx.seen('fault_plans_delivered', f"{p['kind']} after {p['after']}")
+        ctx.count('ref_fetch_failed_right_after_own_merge', world.ref_failures_after_own_merge)
         ctx.count('refused_puts', len(world.refused_puts))
         for _, _, _, code in world.refused_puts:
             ctx.count(f'put_refused_{code}')
@@ -443,7 +656,9 @@ def run(ctx):
             ctx.count(f'ci_declined[{k}]', v)
         for k in ('pushes', 'target_moves', 'stale_head_status_posts', 'label_flips', 'reviews', 'opens', 'batch_success', 'batch_failure', 'webhooks_lost',
                   'callbacks_lost', 'update_ok', 'update_failed', 'webhook_ok', 'webhook_failed', 'callback_ok', 'callback_failed', 'update_assertion',
-                  'webhook_assertion', 'callback_assertion', 'is_mergeable_true', 'is_mergeable_false', 'is_mergeable_assertion_errors', 'user_cancelled_batches'):
+                  'webhook_assertion', 'callback_assertion', 'is_mergeable_true', 'is_mergeable_false', 'is_mergeable_assertion_errors', 'user_cancelled_batches',
+                  'trains_opened', 'stray_callbacks', 'retry_presses', 'try_to_merge_before_target_reconfirmed',
+                  'non_refreshing_updates_before_target_reconfirmed', 'second_merge_opportunities_on_consumed_target'):
             if stats.get(k):
                 ctx.count(k, stats[k])
         for k, v in stats.items():
@@ -459,6 +674,9 @@ def run(ctx):
         ctx.count('merge_failure_batches', sum(1 for e in world.log if e[1] == 'batch-api-error'))
         sig = (cfg['max_open'], len(cfg['external_required']), cfg['ci_required'], cfg['review_required'], cfg['dismiss_stale'], cfg['error_rate'],
                cfg['deployable'], tuple(merged_order), tuple(sorted(declined)), tuple(sorted(race_kinds)), len(world.refused_puts))
+        if train:
+            sig += ('train', tuple(sorted(world.planned_faults)), bool(world.ref_failures_after_own_merge),
+                    bool(stats.get('second_merge_opportunities_on_consumed_target')))
         ctx.case(sample={'config': cfg, 'merged': merged_order, 'declined': dict(declined), 'refused_puts': len(world.refused_puts), 'events': len(world.log)},
                  key=sig, nontrivial=bool(stats.get('is_mergeable_true') and stats.get('is_mergeable_false')) or bool(world.merges) or bool(world.refused_puts))
 
